@@ -100,6 +100,8 @@ structure WSt where
   txGoawayCount : Nat := 0
   gracefulNoticeSent : Bool := false
   shutdownPingAcked : Bool := false
+  -- C14: we have acknowledged a SETTINGS that changed the peer's SETTINGS_INITIAL_WINDOW_SIZE
+  peerIwsChanged : Bool := false
   deriving Repr
 
 def WSt.get (w : WSt) (id : Nat) : Option Str := w.strs.find? (·.id = id)
@@ -244,7 +246,7 @@ def tx (w : WSt) (f : Fr) : WSt × List Viol :=
           let newIws : Int := match settingVal s 4 with | some v => v | none => w.peerIws
           let d := newIws - w.peerIws
           let strs := w.strs.map fun x => { x with sendCredit := x.sendCredit + d }
-          ({ w with rxSettingsQ := rest, peerIws := newIws, strs := strs,
+          ({ w with rxSettingsQ := rest, peerIws := newIws, strs := strs, peerIwsChanged := w.peerIwsChanged || d ≠ 0,
                     peerMaxConc := match settingVal s 3 with | some v => some v | none => w.peerMaxConc,
                     peerMaxFrame := match settingVal s 5 with | some v => v | none => w.peerMaxFrame,
                     peerPush := match settingVal s 2 with | some v => v ≠ 0 | none => w.peerPush }, [])
@@ -395,7 +397,13 @@ def quiescentStream (w : WSt) (sid : Nat) (recvWindow sendWindow : Int) (recvHan
         [s!"C03 stream-receive-window-on-the-wire({s.recvAdvert})-differs-from-the-endpoints-account({recvWindow})"] else []) ++
       -- (nothing is ever sent on a stream the peer pushed: its send window is not kept)
       (if ¬ s.reservedByPeer ∧ ¬ s.txEnd ∧ (s.rxHeaders > 0 ∨ s.txHeaders > 0) ∧ s.sendCredit ≠ sendWindow then
-        [s!"C02 stream-send-window-on-the-wire({s.sendCredit})-differs-from-the-endpoints-account({sendWindow})"] else [])
+        [s!"C02 stream-send-window-on-the-wire({s.sendCredit})-differs-from-the-endpoints-account({sendWindow})"] ++
+        -- (settings apply at the ACK: once a changed SETTINGS_INITIAL_WINDOW_SIZE is acknowledged every stream that can
+        --  still send is governed by it)
+        (if w.peerIwsChanged then
+          [s!"C14 stream-send-window({sendWindow})-is-not-what-the-acknowledged-SETTINGS_INITIAL_WINDOW_SIZE-leaves({s.sendCredit})"]
+         else [])
+      else [])
 
 /-- C15: the connection future completed although the transport neither failed nor reached EOF: the endpoint
     ended the connection of its own accord (shutdown, idle client, a fatal error of the peer) and has told the
